@@ -29,7 +29,7 @@ for p in props:
         na.append({'property_id': pid, 'reason': info.get('na_reason', 'monitor not built yet in this round (planned in DESIGN.md §5); not claimed until it runs clean on the unchanged tree')})
 m = {
     'version': 1,
-    'setup_cmd': 'cd harness && CARGO_NET_OFFLINE=true cargo build --release --offline --bins',
+    'setup_cmd': 'cd harness && CARGO_NET_OFFLINE=true cargo build --release --offline --bins && CARGO_NET_OFFLINE=true cargo build --profile plain --offline --bins',
     'hooks': {
         'guard': "cargo feature 'verif' of the smartcore crate (off by default)",
         'enable': "the harness crate depends on smartcore with features = [serde, ndarray-bindings, nalgebra-bindings, verif]; ./check rebuilds it from /repo's working tree",
